@@ -28,7 +28,7 @@ PROPS = {
         K('quality_multiplier_range', 'C03.kani.quality_multiplier_in_035_12'),
         K('soft_cap_range', 'C03.kani.soft_cap_factor_in_01_1'),
     ]),
-    'C04': dict(units=['core_all', 'route'], level='proof'),
+    'C04': dict(units=['core_all', 'route', 'reg'], level='proof'),
     'C11': dict(units=['core_all'], level='proof', kani=[
         K('quality_multiplier_range', 'C11.kani.quality_multiplier_in_035_to_11x103'),
         K('soft_cap_range', 'C11.kani.soft_cap_factor_in_01_1'),
